@@ -7,6 +7,7 @@ use crate::engine::shard::manager::ShardManager;
 use crate::frontend::http::json_command::JsonCommand;
 use crate::frontend::server_state::ServerState;
 use crate::shared::config::CONFIG;
+use crate::shared::json::{MAX_JSON_NESTING, json_nesting_exceeds};
 use crate::shared::response::{
     ArrowRenderer, JsonRenderer, Response as ResponseType, StatusCode as ResponseStatusCode,
     render::Renderer, unix::UnixRenderer,
@@ -297,6 +298,15 @@ pub async fn handle_json_command(
         "arrow" => Arc::new(ArrowRenderer),
         _ => Arc::new(JsonRenderer),
     };
+
+    // sonic_rs recurses once per nesting level (JsonExpr / payload) and has no depth limit
+    if json_nesting_exceeds(&body, MAX_JSON_NESTING) {
+        return render_error(
+            &format!("Invalid JSON command: nesting deeper than {MAX_JSON_NESTING} levels"),
+            StatusCode::BAD_REQUEST,
+            renderer,
+        );
+    }
 
     match sonic_rs::from_slice::<JsonCommand>(&body) {
         Ok(json_cmd) => {
